@@ -103,6 +103,193 @@ fn op_cursor(h: &str, steps: &[&str]) -> String {
     out.join(" ")
 }
 
+fn fld<T, F: FnOnce() -> T, G: FnOnce(T) -> String>(f: F, g: G) -> String {
+    match guard(f) {
+        Ok(v) => g(v),
+        Err(()) => "panic".into(),
+    }
+}
+
+fn fld_res<T, F: FnOnce() -> Result<T, anyhow::Error>, G: FnOnce(T) -> String>(f: F, g: G) -> String {
+    match guard(f) {
+        Ok(Ok(v)) => g(v),
+        Ok(Err(e)) => format!("err:{}", err_kind(&e)),
+        Err(()) => "panic".into(),
+    }
+}
+
+fn sec_tag(s: Section) -> &'static str {
+    match s {
+        Section::Question => "Q",
+        Section::Answer => "A",
+        Section::NameServers => "N",
+        Section::Additional => "R",
+        Section::Edns => "E",
+    }
+}
+
+fn dump_q(i: &QuestionIterator) -> String {
+    format!(
+        "{},{},{},{},{},{}",
+        opt(i.offset()),
+        fld(|| i.name(), |v| hex(&v)),
+        fld(|| { let mut v = vec![]; i.copy_raw_name(&mut v); v }, |v| hex(&v)),
+        fld(|| i.rr_type(), |v| v.to_string()),
+        fld(|| i.rr_class(), |v| v.to_string()),
+        fld_res(|| i.current_section(), |v| sec_tag(v).to_string())
+    )
+}
+
+fn ip_bytes(ip: std::net::IpAddr) -> Vec<u8> {
+    match ip {
+        std::net::IpAddr::V4(a) => a.octets().to_vec(),
+        std::net::IpAddr::V6(a) => a.octets().to_vec(),
+    }
+}
+
+pub fn dump_r(i: &ResponseIterator) -> String {
+    format!(
+        "{},{},{},{},{},{},{},{},{},{}",
+        opt(i.offset()),
+        fld(|| i.name(), |v| hex(&v)),
+        fld(|| { let mut v = vec![]; i.copy_raw_name(&mut v); v }, |v| hex(&v)),
+        fld(|| i.rr_type(), |v| v.to_string()),
+        fld(|| i.rr_class(), |v| v.to_string()),
+        fld(|| i.rr_ttl(), |v| v.to_string()),
+        fld(|| i.rr_rdlen(), |v| v.to_string()),
+        fld_res(|| i.rr_rd().map(|x| match x { RawRRData::IpAddr(ip) => format!("ip:{}", hex(&ip_bytes(ip))), RawRRData::Data(d) => format!("d:{}", hex(d)) }), |v| v),
+        fld_res(|| i.rr_ip(), |v| hex(&ip_bytes(v))),
+        fld_res(|| i.current_section(), |v| sec_tag(v).to_string())
+    )
+}
+
+fn dump_e(i: &EdnsIterator) -> String {
+    match i.offset() {
+        None => "-".into(),
+        Some(o) => {
+            let p = i.packet();
+            let code = fld(|| ((p[o] as u16) << 8) | p[o + 1] as u16, |v| v.to_string());
+            let len = guard(|| (((p[o + 2] as usize) << 8) | p[o + 3] as usize));
+            let data = match len { Ok(l) => fld(|| p[o + 4..o + 4 + l].to_vec(), |v| hex(&v)), Err(()) => "panic".into() };
+            format!("{},{},{},{}", o, code, match len { Ok(l) => l.to_string(), Err(()) => "panic".into() }, data)
+        }
+    }
+}
+
+macro_rules! walk {
+    ($tag:expr, $first:expr, $next:ident, $dump:ident) => {{
+        let mut recs: Vec<String> = vec![];
+        let r = guard(|| {
+            let mut it = $first;
+            let mut n = 0;
+            while let Some(item) = it {
+                recs.push($dump(&item));
+                n += 1;
+                if n >= 70000 { recs.push("!fuel".into()); break; }
+                it = item.$next();
+            }
+        });
+        if r.is_err() { recs.push("!panic".into()); }
+        format!("{}[{}]", $tag, recs.join(";"))
+    }};
+}
+
+pub fn iter_dump(pp: &mut ParsedPacket) -> String {
+    let q = walk!("Q", pp.into_iter_question(), next, dump_q);
+    let a = walk!("A", pp.into_iter_answer(), next, dump_r);
+    let n = walk!("N", pp.into_iter_nameservers(), next, dump_r);
+    let r = walk!("R", pp.into_iter_additional(), next, dump_r);
+    let o = walk!("O", pp.into_iter_additional_including_opt(), next_including_opt, dump_r);
+    let e = walk!("E", pp.into_iter_edns(), next, dump_e);
+    [q, a, n, r, o, e].join(" ")
+}
+
+fn fmt_q(r: Option<(Vec<u8>, u16, u16)>) -> String {
+    match r {
+        None => "-".into(),
+        Some((n, t, c)) => format!("{}/{}/{}", hex(&n), t, c),
+    }
+}
+
+fn b01(b: bool) -> String {
+    if b { "1".into() } else { "0".into() }
+}
+
+fn hdr_getters(pp: &ParsedPacket) -> String {
+    format!(
+        "tid={} op={} rc={} qr={} fl={} sec={}",
+        fld(|| pp.tid(), |v| v.to_string()),
+        fld(|| pp.opcode(), |v| v.to_string()),
+        fld(|| pp.rcode(), |v| v.to_string()),
+        fld(|| pp.is_response(), b01),
+        fld(|| pp.flags(), |v| v.to_string()),
+        fld(|| pp.dnssec(), b01)
+    )
+}
+
+pub fn summary_dump(pp: &mut ParsedPacket) -> String {
+    let hdr = hdr_getters(pp);
+    let qtc = |pp: &ParsedPacket| fld(|| pp.qtype_qclass(), |o| match o { None => "-".into(), Some((t, c)) => format!("{}/{}", t, c) });
+    let qt0 = fld(|| pp.question(), fmt_q);
+    let qq0 = qtc(pp);
+    let r0 = fld(|| pp.question_raw0().map(|(n, t, c)| (n.to_vec(), t, c)), fmt_q);
+    let r1 = fld(|| pp.question_raw().map(|(n, t, c)| (n.to_vec(), t, c)), fmt_q);
+    let qt1 = fld(|| pp.question(), fmt_q);
+    let qq1 = qtc(pp);
+    let r2 = fld(|| pp.question_raw0().map(|(n, t, c)| (n.to_vec(), t, c)), fmt_q);
+    format!(
+        "{} qtext={} qtc={} raw0={} raw={} qtext2={} qtc2={} raw0b={} ver={} xrc={} cnt={} mp={}",
+        hdr, qt0, qq0, r0, r1, qt1, qq1, r2, opt(pp.edns_version), opt(pp.ext_rcode), pp.edns_count, pp.max_payload()
+    )
+}
+
+pub fn bare_pp(p: Vec<u8>, ext: Option<u16>) -> ParsedPacket {
+    ParsedPacket {
+        packet: Some(p),
+        offset_question: None,
+        offset_answers: None,
+        offset_nameservers: None,
+        offset_additional: None,
+        offset_edns: None,
+        edns_count: 0,
+        ext_rcode: None,
+        edns_version: None,
+        ext_flags: ext,
+        maybe_compressed: false,
+        max_payload: 512,
+        cached: None,
+    }
+}
+
+fn op_hdr(h: &str, ext: &str, setter: &str, arg: &str) -> String {
+    let p = match unhex(h) { Some(p) => p, None => return "bad-hex".into() };
+    let ext: Option<u16> = ext.parse::<u64>().ok().map(|x| x as u16);
+    let arg: u64 = arg.parse().unwrap();
+    let mut pp = bare_pp(p, ext);
+    let r = guard(|| match setter {
+        "settid" => pp.set_tid(arg as u16),
+        "setflags" => pp.set_flags(arg as u32),
+        "setopcode" => pp.set_opcode(arg as u8),
+        "setrcode" => pp.set_rcode(arg as u8),
+        "setresponse" => pp.set_response(arg != 0),
+        _ => {}
+    });
+    if r.is_err() {
+        return "panic".into();
+    }
+    let q = pp.packet().to_vec();
+    format!("ok {} {}", hex(&q[..q.len().min(12)]), hdr_getters(&pp))
+}
+
+fn with_parsed<F: FnOnce(&mut ParsedPacket) -> String>(h: &str, f: F) -> String {
+    let p = match unhex(h) { Some(p) => p, None => return "bad-hex".into() };
+    match guard(|| DNSSector::new(p).and_then(|s| s.parse())) {
+        Ok(Ok(mut pp)) => f(&mut pp),
+        Ok(Err(e)) => format!("noparse err {}", err_kind(&e)),
+        Err(()) => "noparse panic".into(),
+    }
+}
+
 pub fn run_line(line: &str) -> String {
     let w: Vec<&str> = line.split(' ').filter(|x| !x.is_empty() && !x.starts_with('#')).collect();
     if w.is_empty() {
@@ -121,6 +308,9 @@ pub fn run_line(line: &str) -> String {
             res_usize(guard(|| DNSSector::check_uncompressed_name(&p, off)))
         }
         ("cursor", _) if w.len() >= 2 => op_cursor(w[1], &w[2..]),
+        ("iter", 2) => with_parsed(w[1], |pp| iter_dump(pp)),
+        ("summary", 2) => with_parsed(w[1], |pp| summary_dump(pp)),
+        ("hdr", 5) => op_hdr(w[1], w[2], w[3], w[4]),
         _ => "bad-op".into(),
     }
 }
